@@ -94,30 +94,32 @@ Record pst := mkpst {
   seek_cop : bool;                (* seeking_collector_operator *)
   ncmb : option ascii;            (* next_char_must_be *)
   seek_anchor : bool;             (* seeking_anchor_mark *)
-  dcount : nat                    (* demarc_count (a separately tracked local) *)
+  dcount : nat;                   (* demarc_count (a separately tracked local) *)
+  tdem : bool                     (* search_term_demarcated (since the fix of F21) *)
 }.
 
 Definition init_pst (seek_anchor0 : bool) : pst :=
-  mkpst [] "" None [] false false None "" None false false 0 CNone false None seek_anchor0 0.
+  mkpst [] "" None [] false false None "" None false false 0 CNone false None seek_anchor0 0 false.
 
 (* record updates, one per field actually assigned *)
-Definition set_segs v s := mkpst v (sid s) (stype s) (stack s) (esc s) (sinv s) (smeth s) (sattr s) (skw s) (seek_re s) (cap_re s) (clevel s) (copr s) (seek_cop s) (ncmb s) (seek_anchor s) (dcount s).
-Definition set_sid v s := mkpst (segs s) v (stype s) (stack s) (esc s) (sinv s) (smeth s) (sattr s) (skw s) (seek_re s) (cap_re s) (clevel s) (copr s) (seek_cop s) (ncmb s) (seek_anchor s) (dcount s).
-Definition set_stype v s := mkpst (segs s) (sid s) v (stack s) (esc s) (sinv s) (smeth s) (sattr s) (skw s) (seek_re s) (cap_re s) (clevel s) (copr s) (seek_cop s) (ncmb s) (seek_anchor s) (dcount s).
-Definition set_stack v n s := mkpst (segs s) (sid s) (stype s) v (esc s) (sinv s) (smeth s) (sattr s) (skw s) (seek_re s) (cap_re s) (clevel s) (copr s) (seek_cop s) (ncmb s) (seek_anchor s) n.
-Definition set_esc v s := mkpst (segs s) (sid s) (stype s) (stack s) v (sinv s) (smeth s) (sattr s) (skw s) (seek_re s) (cap_re s) (clevel s) (copr s) (seek_cop s) (ncmb s) (seek_anchor s) (dcount s).
-Definition set_sinv v s := mkpst (segs s) (sid s) (stype s) (stack s) (esc s) v (smeth s) (sattr s) (skw s) (seek_re s) (cap_re s) (clevel s) (copr s) (seek_cop s) (ncmb s) (seek_anchor s) (dcount s).
-Definition set_smeth v s := mkpst (segs s) (sid s) (stype s) (stack s) (esc s) (sinv s) v (sattr s) (skw s) (seek_re s) (cap_re s) (clevel s) (copr s) (seek_cop s) (ncmb s) (seek_anchor s) (dcount s).
-Definition set_sattr v s := mkpst (segs s) (sid s) (stype s) (stack s) (esc s) (sinv s) (smeth s) v (skw s) (seek_re s) (cap_re s) (clevel s) (copr s) (seek_cop s) (ncmb s) (seek_anchor s) (dcount s).
-Definition set_skw v s := mkpst (segs s) (sid s) (stype s) (stack s) (esc s) (sinv s) (smeth s) (sattr s) v (seek_re s) (cap_re s) (clevel s) (copr s) (seek_cop s) (ncmb s) (seek_anchor s) (dcount s).
-Definition set_seek_re v s := mkpst (segs s) (sid s) (stype s) (stack s) (esc s) (sinv s) (smeth s) (sattr s) (skw s) v (cap_re s) (clevel s) (copr s) (seek_cop s) (ncmb s) (seek_anchor s) (dcount s).
-Definition set_cap_re v s := mkpst (segs s) (sid s) (stype s) (stack s) (esc s) (sinv s) (smeth s) (sattr s) (skw s) (seek_re s) v (clevel s) (copr s) (seek_cop s) (ncmb s) (seek_anchor s) (dcount s).
-Definition set_clevel v s := mkpst (segs s) (sid s) (stype s) (stack s) (esc s) (sinv s) (smeth s) (sattr s) (skw s) (seek_re s) (cap_re s) v (copr s) (seek_cop s) (ncmb s) (seek_anchor s) (dcount s).
-Definition set_copr v s := mkpst (segs s) (sid s) (stype s) (stack s) (esc s) (sinv s) (smeth s) (sattr s) (skw s) (seek_re s) (cap_re s) (clevel s) v (seek_cop s) (ncmb s) (seek_anchor s) (dcount s).
-Definition set_seek_cop v s := mkpst (segs s) (sid s) (stype s) (stack s) (esc s) (sinv s) (smeth s) (sattr s) (skw s) (seek_re s) (cap_re s) (clevel s) (copr s) v (ncmb s) (seek_anchor s) (dcount s).
-Definition set_ncmb v s := mkpst (segs s) (sid s) (stype s) (stack s) (esc s) (sinv s) (smeth s) (sattr s) (skw s) (seek_re s) (cap_re s) (clevel s) (copr s) (seek_cop s) v (seek_anchor s) (dcount s).
-Definition set_seek_anchor v s := mkpst (segs s) (sid s) (stype s) (stack s) (esc s) (sinv s) (smeth s) (sattr s) (skw s) (seek_re s) (cap_re s) (clevel s) (copr s) (seek_cop s) (ncmb s) v (dcount s).
-Definition set_dcount v s := mkpst (segs s) (sid s) (stype s) (stack s) (esc s) (sinv s) (smeth s) (sattr s) (skw s) (seek_re s) (cap_re s) (clevel s) (copr s) (seek_cop s) (ncmb s) (seek_anchor s) v.
+Definition set_segs v s := mkpst v (sid s) (stype s) (stack s) (esc s) (sinv s) (smeth s) (sattr s) (skw s) (seek_re s) (cap_re s) (clevel s) (copr s) (seek_cop s) (ncmb s) (seek_anchor s) (dcount s) (tdem s).
+Definition set_sid v s := mkpst (segs s) v (stype s) (stack s) (esc s) (sinv s) (smeth s) (sattr s) (skw s) (seek_re s) (cap_re s) (clevel s) (copr s) (seek_cop s) (ncmb s) (seek_anchor s) (dcount s) (tdem s).
+Definition set_stype v s := mkpst (segs s) (sid s) v (stack s) (esc s) (sinv s) (smeth s) (sattr s) (skw s) (seek_re s) (cap_re s) (clevel s) (copr s) (seek_cop s) (ncmb s) (seek_anchor s) (dcount s) (tdem s).
+Definition set_stack v n s := mkpst (segs s) (sid s) (stype s) v (esc s) (sinv s) (smeth s) (sattr s) (skw s) (seek_re s) (cap_re s) (clevel s) (copr s) (seek_cop s) (ncmb s) (seek_anchor s) n (tdem s).
+Definition set_esc v s := mkpst (segs s) (sid s) (stype s) (stack s) v (sinv s) (smeth s) (sattr s) (skw s) (seek_re s) (cap_re s) (clevel s) (copr s) (seek_cop s) (ncmb s) (seek_anchor s) (dcount s) (tdem s).
+Definition set_sinv v s := mkpst (segs s) (sid s) (stype s) (stack s) (esc s) v (smeth s) (sattr s) (skw s) (seek_re s) (cap_re s) (clevel s) (copr s) (seek_cop s) (ncmb s) (seek_anchor s) (dcount s) (tdem s).
+Definition set_smeth v s := mkpst (segs s) (sid s) (stype s) (stack s) (esc s) (sinv s) v (sattr s) (skw s) (seek_re s) (cap_re s) (clevel s) (copr s) (seek_cop s) (ncmb s) (seek_anchor s) (dcount s) (tdem s).
+Definition set_sattr v s := mkpst (segs s) (sid s) (stype s) (stack s) (esc s) (sinv s) (smeth s) v (skw s) (seek_re s) (cap_re s) (clevel s) (copr s) (seek_cop s) (ncmb s) (seek_anchor s) (dcount s) (tdem s).
+Definition set_skw v s := mkpst (segs s) (sid s) (stype s) (stack s) (esc s) (sinv s) (smeth s) (sattr s) v (seek_re s) (cap_re s) (clevel s) (copr s) (seek_cop s) (ncmb s) (seek_anchor s) (dcount s) (tdem s).
+Definition set_seek_re v s := mkpst (segs s) (sid s) (stype s) (stack s) (esc s) (sinv s) (smeth s) (sattr s) (skw s) v (cap_re s) (clevel s) (copr s) (seek_cop s) (ncmb s) (seek_anchor s) (dcount s) (tdem s).
+Definition set_cap_re v s := mkpst (segs s) (sid s) (stype s) (stack s) (esc s) (sinv s) (smeth s) (sattr s) (skw s) (seek_re s) v (clevel s) (copr s) (seek_cop s) (ncmb s) (seek_anchor s) (dcount s) (tdem s).
+Definition set_clevel v s := mkpst (segs s) (sid s) (stype s) (stack s) (esc s) (sinv s) (smeth s) (sattr s) (skw s) (seek_re s) (cap_re s) v (copr s) (seek_cop s) (ncmb s) (seek_anchor s) (dcount s) (tdem s).
+Definition set_copr v s := mkpst (segs s) (sid s) (stype s) (stack s) (esc s) (sinv s) (smeth s) (sattr s) (skw s) (seek_re s) (cap_re s) (clevel s) v (seek_cop s) (ncmb s) (seek_anchor s) (dcount s) (tdem s).
+Definition set_seek_cop v s := mkpst (segs s) (sid s) (stype s) (stack s) (esc s) (sinv s) (smeth s) (sattr s) (skw s) (seek_re s) (cap_re s) (clevel s) (copr s) v (ncmb s) (seek_anchor s) (dcount s) (tdem s).
+Definition set_ncmb v s := mkpst (segs s) (sid s) (stype s) (stack s) (esc s) (sinv s) (smeth s) (sattr s) (skw s) (seek_re s) (cap_re s) (clevel s) (copr s) (seek_cop s) v (seek_anchor s) (dcount s) (tdem s).
+Definition set_seek_anchor v s := mkpst (segs s) (sid s) (stype s) (stack s) (esc s) (sinv s) (smeth s) (sattr s) (skw s) (seek_re s) (cap_re s) (clevel s) (copr s) (seek_cop s) (ncmb s) v (dcount s) (tdem s).
+Definition set_dcount v s := mkpst (segs s) (sid s) (stype s) (stack s) (esc s) (sinv s) (smeth s) (sattr s) (skw s) (seek_re s) (cap_re s) (clevel s) (copr s) (seek_cop s) (ncmb s) (seek_anchor s) v (tdem s).
+Definition set_tdem v s := mkpst (segs s) (sid s) (stype s) (stack s) (esc s) (sinv s) (smeth s) (sattr s) (skw s) (seek_re s) (cap_re s) (clevel s) (copr s) (seek_cop s) (ncmb s) (seek_anchor s) (dcount s) v.
 
 (* demarc_stack.append(c); demarc_count += 1 *)
 Definition push (c : ascii) (s : pst) : pst := set_stack (c :: stack s) (S (dcount s)) s.
@@ -147,6 +149,14 @@ Definition top (s : pst) : outcome ascii :=
 
 Definition top_is (c : ascii) (s : pst) : outcome bool :=
   do t <- top s; Ok (Ascii.eqb t c).
+
+(* demarc_stack[0]: the OUTERMOST open demarcation (the list's head is the top) *)
+Fixpoint bottom_of (l : list ascii) : outcome ascii :=
+  match l with
+  | [] => Raise (PyCrash IndexError)
+  | [c] => Ok c
+  | _ :: r => bottom_of r
+  end.
 
 (* ---- _expand_splats ---- *)
 Definition star : ascii := "*"%char.
@@ -277,7 +287,11 @@ Variable sepc : ascii.
                      else s1 in
            cont (set_stype None (set_sid "" s2))
          else fall s1
-       else fall (push c s)
+       else
+         (* since the fix of F21: a quote that OPENS the term of a search
+            (method known, nothing accumulated yet) demarcates it *)
+         fall (push c (if (match smeth s with Some _ => true | None => false end) && negb (nonempty (sid s))
+                       then set_tdem true s else s))
      else cont (push c s)).
 
 (* 10 *) Definition r_open_paren := mkrule
@@ -295,6 +309,11 @@ Variable sepc : ascii.
          end
        else Raise (YPE Generic)
      else
+       (* since the fix of F30: no collector inside a [...] segment *)
+       do in_segment <-
+          (if 0 <? dcount s then do b <- bottom_of (stack s); Ok (Ascii.eqb b "["%char)
+           else Ok false);
+       if in_segment then Raise (YPE Generic) else
        do s1 <- (if (clevel s =? 0) then flush_expand s else Ok s);
        let s2 := set_stype (Some TCollector)
                    (push c (set_clevel (S (clevel s1)) (set_seek_cop false s1))) in
@@ -304,6 +323,9 @@ Variable sepc : ascii.
   (fun s c => Ok ((0 <? dcount s) && Ascii.eqb c ")"%char
                   && is_stype TKeywordSearch (stype s)))
   (fun s _ =>
+     (* since the fix of F30: the keyword's ")" closes a "(" and nothing else *)
+     do t <- top s;
+     if negb (Ascii.eqb t "("%char) then Raise (YPE Generic) else
      do s1 <- pop s;
      cont (set_seek_cop false (set_ncmb (Some "]"%char) s1))).
 
@@ -396,7 +418,8 @@ Definition undemarcate (id : string) : string :=
           end
         else if is_stype TSearch (stype s) && (match smeth s with Some _ => true | None => false end) then
           match smeth s with
-          | Some m => Ok (stype s, ASearch (sinv s) m (sattr s) (undemarcate (sid s)))
+          | Some m => Ok (stype s, ASearch (sinv s) m (sattr s)
+                               (if tdem s then undemarcate (sid s) else sid s))
           | None => Ok (stype s, AStr (sid s))
           end
         else if is_stype TKeywordSearch (stype s) && (match skw s with Some _ => true | None => false end) then
@@ -406,14 +429,17 @@ Definition undemarcate (id : string) : string :=
           end
         else Ok (stype s, AStr (sid s)));
      do s1 <- pop (set_stype None (set_sid "" (set_segs ((segs s ++ [sg])%list) s)));
-     cont (set_skw None (set_sinv false (set_smeth None s1)))).
+     cont (set_tdem false (set_skw None (set_sinv false (set_smeth None s1))))).
 
-(* 17 -- after the "fix:" commit: an unmatched ] raises YAMLPathException *)
+(* 17 -- after the "fix:" commits: an unmatched ] raises YAMLPathException,
+   and so does (F30) a ] whose innermost open demarcation is not a [ *)
 Definition r_stray_close_bracket := mkrule
   (fun _ c => Ok (Ascii.eqb c "]"%char))
   (fun s _ =>
      if dcount s <? 1 then Raise (YPE Generic)
-     else do s1 <- pop s; fall s1).
+     else do t <- top s;
+          if negb (Ascii.eqb t "["%char) then Raise (YPE Generic)
+          else do s1 <- pop s; fall s1).
 
 (* 18 *) Definition r_separator := mkrule
   (fun s c => Ok ((dcount s <? 1) && Ascii.eqb c sepc))
